@@ -3,7 +3,7 @@
 
 use std::{
     cell::RefCell,
-    collections::{HashMap, VecDeque},
+    collections::{BTreeSet, HashMap, VecDeque},
     future::Future,
     pin::Pin,
     rc::Rc,
@@ -26,6 +26,13 @@ struct Counters {
     cancelled: Vec<bool>,
     completed: Vec<bool>,
     polled_after_end: Vec<u32>,
+    /// what the future did at its last poll (`p` also stands for an exhausted script)
+    last: Vec<Option<char>>,
+    /// a kept waker clone was woken (task live, executor alive) and the task has not been polled since
+    wake_pending: Vec<bool>,
+    script_len: Vec<usize>,
+    /// `C04:future-dropped-live` already reported
+    live_drop_reported: Vec<bool>,
 }
 
 type Sh = Rc<RefCell<Counters>>;
@@ -62,6 +69,11 @@ impl Future for Scripted {
             if c.cancelled[id] || c.completed[id] {
                 c.polled_after_end[id] += 1;
             }
+            c.wake_pending[id] = false;
+            c.last[id] = Some(match self.script.front() {
+                None => 'p',
+                Some(l) => *l,
+            });
         }
         match self.script.pop_front() {
             None | Some('p') => Poll::Pending,
@@ -111,12 +123,15 @@ impl Wake for CountWaker {
 
 struct World {
     exe: Option<Executor>,
+    max_interval: u32,
     sh: Sh,
     handles: Vec<Option<JoinHandle<Out>>>,
     jw: HashMap<usize, Arc<CountWaker>>,
     wake_log: Arc<Mutex<Vec<usize>>>,
-    /// (task, waker id) pairs whose last poll returned Pending
-    parked: Vec<Option<usize>>,
+    /// handle of task i: last poll returned Pending with waker `.0`, when the wake log had length `.1`
+    parked: Vec<Option<(usize, usize)>>,
+    /// per-case tags (reported once per case)
+    case_tags: BTreeSet<String>,
 }
 
 impl World {
@@ -124,17 +139,78 @@ impl World {
         let cfg = ExecutorConfig { max_interval, ..Default::default() };
         World {
             exe: Some(Executor::with_config(cfg)),
+            max_interval,
             sh: Rc::new(RefCell::new(Counters::default())),
             handles: vec![],
             jw: HashMap::new(),
             wake_log: Arc::new(Mutex::new(vec![])),
             parked: vec![],
+            case_tags: BTreeSet::new(),
         }
     }
 
     fn waker(&mut self, w: usize) -> Waker {
         let log = self.wake_log.clone();
         Waker::from(self.jw.entry(w).or_insert_with(|| Arc::new(CountWaker { id: w, log })).clone())
+    }
+
+    /// phase of task `id` as seen by the instrumentation only (for tags)
+    fn phase(&self, id: usize) -> &'static str {
+        let c = self.sh.borrow();
+        if c.completed[id] {
+            "completed"
+        } else if self.exe.is_none() {
+            "after-xdrop"
+        } else if c.cancelled[id] {
+            "cancelled"
+        } else if c.polls[id] == 0 {
+            "unpolled"
+        } else {
+            "pending"
+        }
+    }
+
+    /// Monitor: one `Executor::tick` polls at most `max_interval` futures (documented contract of
+    /// `ExecutorConfig::max_interval` / `Executor::tick`).
+    fn check_tick(&self, log: &[usize], ex: &mut Exec) {
+        if log.len() > self.max_interval as usize {
+            ex.fail(
+                "C04:tick-budget",
+                format!("one tick polled {} futures ({:?}) with max_interval {}", log.len(), log, self.max_interval),
+            );
+        }
+    }
+
+    /// Monitor: a handle whose last poll returned Pending with waker k, and whose task has completed since,
+    /// has been woken through k after that poll.
+    fn check_joins(&self, when: &str, ex: &mut Exec) {
+        let c = self.sh.borrow();
+        let log = self.wake_log.lock().unwrap();
+        for (id, p) in self.parked.iter().enumerate() {
+            if let Some((k, at)) = p {
+                if c.completed[id] && !log[*at..].contains(k) {
+                    ex.fail(
+                        "C04:join-not-woken",
+                        format!("task {id} completed, handle parked with waker {k}, never woken ({when})"),
+                    );
+                }
+            }
+        }
+    }
+
+    /// Monitor: the future of a task is dropped only after the task completed or was cancelled
+    /// (handle dropped / cancel called / executor dropped); in particular detaching does not drop it.
+    fn check_live_drops(&self, after: &str, ex: &mut Exec) {
+        let mut c = self.sh.borrow_mut();
+        for id in 0..c.polls.len() {
+            if c.fut_drops[id] > 0 && !c.completed[id] && !c.cancelled[id] && !c.live_drop_reported[id] {
+                c.live_drop_reported[id] = true;
+                ex.fail(
+                    "C04:future-dropped-live",
+                    format!("task {id}: future dropped although neither completed nor cancelled (after `{after}`)"),
+                );
+            }
+        }
     }
 }
 
@@ -145,6 +221,7 @@ fn exec_line(w: &mut World, line: &str, ex: &mut Exec) -> String {
         "spawn" => {
             let Some(exe) = &w.exe else { return "invalid".into() };
             let id = w.handles.len();
+            let script: VecDeque<char> = if t[1] == "-" { VecDeque::new() } else { t[1].chars().collect() };
             {
                 let mut c = w.sh.borrow_mut();
                 c.polls.push(0);
@@ -155,8 +232,11 @@ fn exec_line(w: &mut World, line: &str, ex: &mut Exec) -> String {
                 c.cancelled.push(false);
                 c.completed.push(false);
                 c.polled_after_end.push(0);
+                c.last.push(None);
+                c.wake_pending.push(false);
+                c.script_len.push(script.len());
+                c.live_drop_reported.push(false);
             }
-            let script: VecDeque<char> = if t[1] == "-" { VecDeque::new() } else { t[1].chars().collect() };
             let h = exe.spawn(Scripted { id, script, sh: w.sh.clone() });
             w.handles.push(Some(h));
             w.parked.push(None);
@@ -164,13 +244,27 @@ fn exec_line(w: &mut World, line: &str, ex: &mut Exec) -> String {
         }
         "tick" => {
             let Some(exe) = &w.exe else { return "invalid".into() };
-            let before: Vec<u32> = w.sh.borrow().polls.clone();
-            // order of polls: record via a per-tick sequence — polls are counted; to get the order we
-            // compare counters after each... the futures cannot know the order cheaply, so log it:
             POLL_LOG.with(|l| l.borrow_mut().clear());
             let hot = exe.tick();
-            let _ = before;
             let log = POLL_LOG.with(|l| l.borrow().clone());
+            w.check_tick(&log, ex);
+            // tags (implementation outputs only)
+            let mut seen = vec![];
+            let mut repoll = false;
+            for i in &log {
+                if seen.contains(i) {
+                    repoll = true;
+                }
+                seen.push(*i);
+            }
+            if repoll {
+                ex.tag("tick:repoll-same-tick");
+                w.case_tags.insert("case:repoll-same-tick".into());
+            }
+            if log.len() == w.max_interval as usize && hot {
+                ex.tag("tick:budget-hit-hot-left");
+            }
+            ex.tag(format!("tick:npolls={}", if log.len() >= 4 { "4+".to_string() } else { log.len().to_string() }));
             let s: Vec<String> = log.iter().map(|i| i.to_string()).collect();
             format!("polled {} hot={}", if s.is_empty() { "-".into() } else { s.join(",") }, hot as u8)
         }
@@ -179,6 +273,7 @@ fn exec_line(w: &mut World, line: &str, ex: &mut Exec) -> String {
             if id >= w.handles.len() || w.handles[id].is_none() {
                 return "invalid".into();
             }
+            let was_completed = w.sh.borrow().completed[id];
             let waker = w.waker(wk);
             let mut cx = Context::from_waker(&waker);
             let mut h = w.handles[id].take().unwrap();
@@ -186,7 +281,13 @@ fn exec_line(w: &mut World, line: &str, ex: &mut Exec) -> String {
             match r {
                 Poll::Pending => {
                     w.handles[id] = Some(h);
-                    w.parked[id] = Some(wk);
+                    ex.tag(match w.parked[id] {
+                        None => "hpoll:pending:first",
+                        Some((k, _)) if k == wk => "hpoll:pending:same-waker",
+                        Some(_) => "hpoll:pending:other-waker",
+                    });
+                    let at = w.wake_log.lock().unwrap().len();
+                    w.parked[id] = Some((wk, at));
                     "pending".into()
                 }
                 Poll::Ready(res) => {
@@ -212,9 +313,21 @@ fn exec_line(w: &mut World, line: &str, ex: &mut Exec) -> String {
                                 }
                                 Err(_) => ex.fail("C04:foreign-panic", format!("handle {id}: unexpected panic payload")),
                             }
+                            w.case_tags.insert("case:panic-reached-handle".into());
                             "panicked".into()
                         }
-                        Err(JoinError::Cancelled) => "cancelled".into(),
+                        Err(JoinError::Cancelled) => {
+                            // Monitor: the output / panic of a completed task reaches the handle that asks for it
+                            // (nothing but this handle could have taken or discarded it).
+                            if was_completed {
+                                ex.fail(
+                                    "C04:completed-result-lost",
+                                    format!("task {id} had completed, its handle was polled and got Cancelled"),
+                                );
+                            }
+                            ex.tag(format!("hpoll:cancelled@{}", w.phase(id)));
+                            "cancelled".into()
+                        }
                     }
                 }
             }
@@ -224,6 +337,7 @@ fn exec_line(w: &mut World, line: &str, ex: &mut Exec) -> String {
             if id >= w.handles.len() || w.handles[id].is_none() {
                 return "invalid".into();
             }
+            ex.tag(format!("{}@{}{}", t[0], w.phase(id), if w.parked[id].is_some() { ",parked" } else { "" }));
             match t[0] {
                 "hdrop" => {
                     let done = w.sh.borrow().completed[id];
@@ -238,11 +352,8 @@ fn exec_line(w: &mut World, line: &str, ex: &mut Exec) -> String {
                     w.parked[id] = None;
                 }
                 _ => {
-                    // first half of `JoinHandle::cancel(self).await`: poll the cancel future once with a
-                    // noop waker is not possible without consuming the handle, so drive it explicitly:
-                    // `cancel()` = task.cancel(false) then await self. We emulate by polling the async fn
-                    // to its first suspension and keeping it would change the handle type; instead mark
-                    // and use the public API in one go.
+                    // `JoinHandle::cancel(self)` is an async fn: `task.cancel(false)` then `self.await`;
+                    // poll it once with a noop waker, it must be ready at once.
                     let done = w.sh.borrow().completed[id];
                     if !done {
                         w.sh.borrow_mut().cancelled[id] = true;
@@ -257,9 +368,16 @@ fn exec_line(w: &mut World, line: &str, ex: &mut Exec) -> String {
                         Poll::Ready(Some(mut out)) => {
                             out.taken = true;
                             w.sh.borrow_mut().res_taken[id] += 1;
+                            if out.id != id {
+                                ex.fail("C04:wrong-output", format!("cancel of handle {id} returned the output of task {}", out.id));
+                            }
+                            ex.tag("hcancel:some");
                             "ok some".into()
                         }
-                        Poll::Ready(None) => "ok none".into(),
+                        Poll::Ready(None) => {
+                            ex.tag("hcancel:none");
+                            "ok none".into()
+                        }
                         Poll::Pending => {
                             ex.fail("C04:cancel-pending", format!("JoinHandle::cancel of task {id} returned Pending"));
                             "ok pending".into()
@@ -276,7 +394,13 @@ fn exec_line(w: &mut World, line: &str, ex: &mut Exec) -> String {
                 return "invalid".into();
             }
             let wk = c.wakers[id][0].clone();
+            let live = !c.completed[id] && !c.cancelled[id] && w.exe.is_some();
             drop(c);
+            ex.tag(format!("wake-ok@{}", w.phase(id)));
+            w.case_tags.insert("case:wake-ok".into());
+            if live {
+                w.sh.borrow_mut().wake_pending[id] = true;
+            }
             wk.wake(); // a fresh clone is consumed: net effect of wake_by_ref on the kept clone
             "ok".into()
         }
@@ -287,7 +411,15 @@ fn exec_line(w: &mut World, line: &str, ex: &mut Exec) -> String {
                 return "invalid".into();
             }
             let wk = c.wakers[id].pop();
+            let last = c.wakers[id].is_empty();
             drop(c);
+            ex.tag(format!(
+                "wdrop-ok@{}{}{}",
+                w.phase(id),
+                if last { ",last-clone" } else { "" },
+                if w.handles[id].is_none() { ",no-handle" } else { "" }
+            ));
+            w.case_tags.insert("case:wdrop-ok".into());
             drop(wk);
             "ok".into()
         }
@@ -297,11 +429,23 @@ fn exec_line(w: &mut World, line: &str, ex: &mut Exec) -> String {
             }
             {
                 let mut c = w.sh.borrow_mut();
+                let mut live = 0;
                 for i in 0..c.cancelled.len() {
                     if !c.completed[i] {
+                        if !c.cancelled[i] {
+                            live += 1;
+                        }
                         c.cancelled[i] = true;
                     }
                 }
+                let kept = c.wakers.iter().filter(|v| !v.is_empty()).count();
+                let parked = w.parked.iter().filter(|p| p.is_some()).count();
+                ex.tag(format!(
+                    "xdrop:{}{}{}",
+                    if live > 0 { "live-tasks" } else { "no-live-task" },
+                    if kept > 0 { ",kept-wakers" } else { "" },
+                    if parked > 0 { ",parked-handles" } else { "" }
+                ));
             }
             drop(w.exe.take());
             "ok".into()
@@ -312,10 +456,6 @@ fn exec_line(w: &mut World, line: &str, ex: &mut Exec) -> String {
             if id >= c.polls.len() {
                 return "invalid".into();
             }
-            // which join waker does the task still hold a clone of?
-            let mut held: Vec<usize> = w.jw.iter().filter(|(_, a)| Arc::strong_count(a) > 1).map(|(k, _)| *k).collect();
-            held.sort();
-            let _ = held;
             format!(
                 "polls={} futDrops={} delivered={}",
                 c.polls[id], c.fut_drops[id], c.res_taken[id] + c.res_drops[id]
@@ -323,6 +463,10 @@ fn exec_line(w: &mut World, line: &str, ex: &mut Exec) -> String {
         }
         "woken" => {
             let l = w.wake_log.lock().unwrap();
+            if !l.is_empty() {
+                ex.tag("woken-nonempty");
+                w.case_tags.insert("case:woken-nonempty".into());
+            }
             let s: Vec<String> = l.iter().map(|i| i.to_string()).collect();
             format!("woken {}", if s.is_empty() { "-".into() } else { s.join(",") })
         }
@@ -337,10 +481,10 @@ thread_local! {
 fn run_case(case: &Case) -> Exec {
     let mut ex = Exec::new();
     let mut world: Option<World> = None;
+    let mut spawned = false;
     for line in &case.lines {
         let t: Vec<&str> = line.split_whitespace().collect();
         if t[0] == "new" {
-            // finalise a previous world first
             world = Some(World::new(t[1].parse().unwrap()));
             ex.out.push("ok".into());
             continue;
@@ -353,22 +497,55 @@ fn run_case(case: &Case) -> Exec {
                 "panic".into()
             }
         };
+        w.check_live_drops(line, &mut ex);
+        spawned |= o.starts_with("id ");
         ex.tag(format!("op:{}:{}", t[0], o.split(' ').next().unwrap()));
         ex.out.push(o);
     }
     // finalisation + implementation-only monitors
     if let Some(mut w) = world {
         // delivery: a handle parked with waker k whose task has completed must have been woken
-        {
-            let c = w.sh.borrow();
-            let log = w.wake_log.lock().unwrap();
-            for (id, p) in w.parked.iter().enumerate() {
-                if let Some(k) = p {
-                    if c.completed[id] && !log.contains(k) {
-                        ex.fail("C04:join-not-woken", format!("task {id} completed, handle parked with waker {k}, never woken"));
+        w.check_joins("at the end of the program", &mut ex);
+        // no starvation: keep ticking until the executor reports no hot task; then every live task has been
+        // polled, and polled again after its last self-wake / after the last wake of a kept waker clone.
+        // (Every scripted future goes quiet after finitely many polls, so this terminates.)
+        if w.exe.is_some() && w.max_interval > 0 {
+            let bound: usize = w.sh.borrow().script_len.iter().map(|l| l + 2).sum::<usize>() + 8;
+            let mut hot = true;
+            let mut rounds = 0;
+            while hot && rounds < bound {
+                POLL_LOG.with(|l| l.borrow_mut().clear());
+                let exe = w.exe.as_ref().unwrap();
+                match catch(|| exe.tick()) {
+                    Ok(h) => hot = h,
+                    Err(m) => {
+                        ex.fail("C04:panic", format!("tick while draining: {m}"));
+                        break;
+                    }
+                }
+                let log = POLL_LOG.with(|l| l.borrow().clone());
+                w.check_tick(&log, &mut ex);
+                rounds += 1;
+            }
+            w.check_live_drops("draining ticks", &mut ex);
+            if hot {
+                ex.fail("C04:hot-never-drains", format!("tick still reports hot tasks after {rounds} further ticks"));
+            } else {
+                let c = w.sh.borrow();
+                for id in 0..c.polls.len() {
+                    if c.completed[id] || c.cancelled[id] {
+                        continue;
+                    }
+                    if c.polls[id] == 0 {
+                        ex.fail("C04:starved", format!("task {id} was spawned, never cancelled, and never polled although the executor ran dry"));
+                    } else if c.last[id] == Some('s') {
+                        ex.fail("C04:starved", format!("task {id} woke itself at its last poll and was not polled again although the executor ran dry"));
+                    } else if c.wake_pending[id] {
+                        ex.fail("C04:starved", format!("task {id} was woken through a kept waker and was not polled again although the executor ran dry"));
                     }
                 }
             }
+            w.check_joins("after draining ticks", &mut ex);
         }
         // release everything: handles, waker clones, executor
         for h in w.handles.iter_mut() {
@@ -400,11 +577,309 @@ fn run_case(case: &Case) -> Exec {
                 ex.fail("C04:join-waker-leak", format!("waker {k} still has {} owners after everything was dropped", Arc::strong_count(a)));
             }
         }
+        for t in std::mem::take(&mut w.case_tags) {
+            ex.tag(t);
+        }
     }
-    ex.nontrivial = case.lines.len() >= 4;
+    // generator family = case name up to the first digit / dash
+    let fam: String = case.name.chars().take_while(|c| c.is_ascii_alphabetic() || *c == '/').collect();
+    ex.tag(format!("fam:{fam}"));
+    ex.nontrivial = spawned && case.lines.len() >= 4;
     ex
 }
 
+// ---------------------------------------------------------------------------------------------
+// case generation
+// ---------------------------------------------------------------------------------------------
+
+/// Generator-side guess of what a task is doing. This is bookkeeping for *biasing* the generator towards
+/// operations that are plausibly valid / interesting; it ignores max_interval, tick order and re-polls and
+/// is never used to judge an output.
+#[derive(Clone, Copy, PartialEq)]
+enum Guess {
+    Running,
+    Finished,
+    Cancelled,
+}
+
+struct TaskShadow {
+    script: Vec<char>,
+    pc: usize,
+    runnable: bool,
+    g: Guess,
+    handle: bool,
+    wakers: u32,
+    last_w: Option<u64>,
+}
+
+struct Prog {
+    lines: Vec<String>,
+    alive: bool,
+    tasks: Vec<TaskShadow>,
+}
+
+impl Prog {
+    fn new(n: u32) -> Self {
+        Prog { lines: vec![format!("new {n}")], alive: true, tasks: vec![] }
+    }
+
+    fn spawn(&mut self, s: &str) {
+        self.lines.push(format!("spawn {s}"));
+        if self.alive {
+            let script = if s == "-" { vec![] } else { s.chars().collect() };
+            self.tasks.push(TaskShadow { script, pc: 0, runnable: true, g: Guess::Running, handle: true, wakers: 0, last_w: None });
+        }
+    }
+
+    fn tick(&mut self) {
+        self.lines.push("tick".into());
+        if !self.alive {
+            return;
+        }
+        for t in &mut self.tasks {
+            if !t.runnable || t.g != Guess::Running {
+                continue;
+            }
+            let l = t.script.get(t.pc).copied();
+            if l.is_some() {
+                t.pc += 1;
+            }
+            match l {
+                Some('s') => {}
+                Some('c') => {
+                    t.wakers += 1;
+                    t.runnable = false;
+                }
+                Some('r') | Some('x') => {
+                    t.g = Guess::Finished;
+                    t.runnable = false;
+                }
+                _ => t.runnable = false,
+            }
+        }
+    }
+
+    fn hpoll(&mut self, id: usize, w: u64) {
+        self.lines.push(format!("hpoll {id} {w}"));
+        if let Some(t) = self.tasks.get_mut(id) {
+            if t.handle {
+                if t.g == Guess::Running { t.last_w = Some(w) } else { t.handle = false }
+            }
+        }
+    }
+
+    fn hend(&mut self, op: &str, id: usize) {
+        self.lines.push(format!("{op} {id}"));
+        if let Some(t) = self.tasks.get_mut(id) {
+            if t.handle {
+                t.handle = false;
+                if op != "hdetach" && t.g == Guess::Running {
+                    t.g = Guess::Cancelled;
+                    t.runnable = false;
+                }
+            }
+        }
+    }
+
+    fn wake(&mut self, id: usize) {
+        self.lines.push(format!("wake {id}"));
+        let alive = self.alive;
+        if let Some(t) = self.tasks.get_mut(id) {
+            if t.wakers > 0 && alive && t.g == Guess::Running {
+                t.runnable = true;
+            }
+        }
+    }
+
+    fn wdrop(&mut self, id: usize) {
+        self.lines.push(format!("wdrop {id}"));
+        if let Some(t) = self.tasks.get_mut(id) {
+            t.wakers = t.wakers.saturating_sub(1);
+        }
+    }
+
+    fn xdrop(&mut self) {
+        self.lines.push("xdrop".into());
+        if self.alive {
+            self.alive = false;
+            for t in &mut self.tasks {
+                if t.g == Guess::Running {
+                    t.g = Guess::Cancelled;
+                    t.runnable = false;
+                }
+            }
+        }
+    }
+
+    fn stat(&mut self, id: usize) {
+        self.lines.push(format!("stat {id}"));
+    }
+
+    fn with_handle(&self) -> Vec<usize> {
+        (0..self.tasks.len()).filter(|i| self.tasks[*i].handle).collect()
+    }
+
+    fn with_wakers(&self) -> Vec<usize> {
+        (0..self.tasks.len()).filter(|i| self.tasks[*i].wakers > 0).collect()
+    }
+
+    fn any_running(&self) -> bool {
+        self.tasks.iter().any(|t| t.g == Guess::Running && t.runnable)
+    }
+
+    /// waker id for a handle poll of task `id`: mostly 0 at first, then the same one again / another one
+    fn pick_waker(&self, id: usize, rng: &mut Rng) -> u64 {
+        match self.tasks.get(id).and_then(|t| t.last_w) {
+            Some(w) => match rng.below(5) {
+                0 | 1 => w,
+                2 | 3 => (w + 1 + rng.below(2)) % 3,
+                _ => rng.below(3),
+            },
+            None => {
+                if rng.chance(7, 10) { 0 } else { rng.below(3) }
+            }
+        }
+    }
+
+    /// the usual ending of a case: `stat` of every task, then the wake log
+    fn finish(mut self, name: String) -> Case {
+        for id in 0..self.tasks.len() {
+            self.lines.push(format!("stat {id}"));
+        }
+        self.lines.push("woken".into());
+        Case { name, lines: self.lines }
+    }
+}
+
+/// weights of one guided random step
+#[derive(Clone, Copy)]
+struct Prof {
+    spawn: u64,
+    tick: u64,
+    hpoll: u64,
+    hdrop: u64,
+    hdetach: u64,
+    hcancel: u64,
+    wake: u64,
+    wdrop: u64,
+    xdrop: u64,
+    stat: u64,
+    /// an operation that is (plausibly) invalid: id out of range, consumed handle, no waker, dead executor
+    bad: u64,
+    max_tasks: usize,
+}
+
+const PROF_WAKER: Prof = Prof { spawn: 1, tick: 6, hpoll: 2, hdrop: 1, hdetach: 1, hcancel: 1, wake: 8, wdrop: 4, xdrop: 1, stat: 1, bad: 0, max_tasks: 3 };
+const PROF_JOIN: Prof = Prof { spawn: 2, tick: 6, hpoll: 8, hdrop: 1, hdetach: 1, hcancel: 1, wake: 3, wdrop: 1, xdrop: 1, stat: 1, bad: 0, max_tasks: 3 };
+const PROF_PHASE: Prof = Prof { spawn: 2, tick: 5, hpoll: 4, hdrop: 2, hdetach: 2, hcancel: 2, wake: 3, wdrop: 2, xdrop: 1, stat: 1, bad: 1, max_tasks: 3 };
+const PROF_HOT: Prof = Prof { spawn: 4, tick: 14, hpoll: 2, hdrop: 1, hdetach: 1, hcancel: 1, wake: 3, wdrop: 1, xdrop: 0, stat: 1, bad: 0, max_tasks: 6 };
+const PROF_HOSTILE: Prof = Prof { spawn: 3, tick: 4, hpoll: 3, hdrop: 3, hdetach: 2, hcancel: 2, wake: 2, wdrop: 2, xdrop: 2, stat: 1, bad: 10, max_tasks: 4 };
+
+fn bad_op(p: &mut Prog, rng: &mut Rng) {
+    let n = p.tasks.len();
+    let oob = n + rng.below(3) as usize;
+    let consumed: Vec<usize> = (0..n).filter(|i| !p.tasks[*i].handle).collect();
+    let nowaker: Vec<usize> = (0..n).filter(|i| p.tasks[*i].wakers == 0).collect();
+    match rng.below(10) {
+        0 => p.hpoll(oob, rng.below(3)),
+        1 => {
+            let op = *rng.pick(&["hdrop", "hdetach", "hcancel"]);
+            p.hend(op, oob)
+        }
+        2 => {
+            if rng.chance(1, 2) { p.wake(oob) } else { p.wdrop(oob) }
+        }
+        3 => p.stat(oob),
+        4 | 5 if !consumed.is_empty() => {
+            let id = *rng.pick(&consumed);
+            match rng.below(4) {
+                0 => p.hpoll(id, rng.below(3)),
+                1 => p.hend("hdrop", id),
+                2 => p.hend("hdetach", id),
+                _ => p.hend("hcancel", id),
+            }
+        }
+        6 if !nowaker.is_empty() => {
+            let id = *rng.pick(&nowaker);
+            if rng.chance(1, 2) { p.wake(id) } else { p.wdrop(id) }
+        }
+        _ => {
+            // operations on a dead executor
+            if p.alive {
+                p.xdrop();
+            }
+            match rng.below(3) {
+                0 => p.spawn(&gen_script(rng)),
+                1 => p.tick(),
+                _ => p.xdrop(),
+            }
+        }
+    }
+}
+
+fn step(p: &mut Prog, rng: &mut Rng, pr: &Prof, script: fn(&mut Rng) -> String) {
+    let hs = p.with_handle();
+    let ws = p.with_wakers();
+    let mut c: Vec<(u64, u8)> = vec![];
+    if p.alive {
+        if p.tasks.len() < pr.max_tasks {
+            c.push((pr.spawn, 0));
+        }
+        // ticking is more interesting while something is (plausibly) runnable
+        c.push((if p.any_running() { pr.tick } else { pr.tick / 3 + 1 }, 1));
+        c.push((pr.xdrop, 8));
+    }
+    if !hs.is_empty() {
+        c.push((pr.hpoll, 2));
+        c.push((pr.hdrop, 3));
+        c.push((pr.hdetach, 4));
+        c.push((pr.hcancel, 5));
+    }
+    if !ws.is_empty() {
+        c.push((pr.wake, 6));
+        c.push((pr.wdrop, 7));
+    }
+    if !p.tasks.is_empty() {
+        c.push((pr.stat, 9));
+    }
+    c.push((pr.bad, 10));
+    let total: u64 = c.iter().map(|x| x.0).sum();
+    if total == 0 {
+        p.tick();
+        return;
+    }
+    let mut r = rng.below(total);
+    let mut op = 1u8;
+    for (w, o) in &c {
+        if r < *w {
+            op = *o;
+            break;
+        }
+        r -= *w;
+    }
+    match op {
+        0 => p.spawn(&script(rng)),
+        1 => p.tick(),
+        2 => {
+            let id = *rng.pick(&hs);
+            let w = p.pick_waker(id, rng);
+            p.hpoll(id, w)
+        }
+        3 => p.hend("hdrop", *rng.pick(&hs)),
+        4 => p.hend("hdetach", *rng.pick(&hs)),
+        5 => p.hend("hcancel", *rng.pick(&hs)),
+        6 => p.wake(*rng.pick(&ws)),
+        7 => p.wdrop(*rng.pick(&ws)),
+        8 => p.xdrop(),
+        9 => {
+            let id = rng.below(p.tasks.len() as u64) as usize;
+            p.stat(id)
+        }
+        _ => bad_op(p, rng),
+    }
+}
+
+/// the old unstructured script: 0..4 of p/s/c then mostly `r`, sometimes `x` or nothing
 fn gen_script(rng: &mut Rng) -> String {
     let n = rng.below(5);
     let mut s = String::new();
@@ -419,39 +894,485 @@ fn gen_script(rng: &mut Rng) -> String {
     if s.is_empty() { "-".into() } else { s }
 }
 
-fn generate(tier: &str, rng: &mut Rng) -> Vec<Case> {
-    let n = if tier == "thorough" { 30_000 } else { 2_500 };
-    let mut cases = vec![];
-    for i in 0..n {
-        let mut lines = vec![format!("new {}", rng.pick(&[1u32, 2, 3, 61]))];
-        let mut ntasks = 0usize;
-        let len = rng.range(3, 16);
-        for _ in 0..len {
-            let id = if ntasks > 0 { rng.below(ntasks as u64) as usize } else { 0 };
-            let op = rng.below(20);
-            let l = match op {
-                0..=3 => {
-                    ntasks += 1;
-                    format!("spawn {}", gen_script(rng))
+/// a script whose first `c` is reachable by ticking alone: s* c (c|s|p)* (r|x|nothing)
+fn c_script(rng: &mut Rng) -> String {
+    let mut s = String::new();
+    for _ in 0..*rng.pick(&[0u64, 0, 0, 1, 1, 2]) {
+        s.push('s');
+    }
+    s.push('c');
+    for _ in 0..rng.below(4) {
+        s.push(*rng.pick(&['c', 'c', 's', 'p']));
+    }
+    match rng.below(5) {
+        0 => {}
+        1 => s.push('x'),
+        _ => s.push('r'),
+    }
+    s
+}
+
+/// a script that completes by ticking alone (s* then r/x), sometimes with one `c` that needs a wake
+fn fin_script(rng: &mut Rng) -> String {
+    let mut s = String::new();
+    for _ in 0..*rng.pick(&[0u64, 0, 1, 1, 2, 3]) {
+        s.push('s');
+    }
+    if rng.chance(1, 6) {
+        s.push('c');
+    }
+    s.push(if rng.chance(1, 4) { 'x' } else { 'r' });
+    s
+}
+
+/// mostly self-waking
+fn s_script(rng: &mut Rng) -> String {
+    let mut s = String::new();
+    for _ in 0..rng.range(1, 5) {
+        s.push(*rng.pick(&['s', 's', 's', 's', 'p', 'c']));
+    }
+    match rng.below(4) {
+        0 => {}
+        1 => s.push('x'),
+        _ => s.push('r'),
+    }
+    s
+}
+
+/// kept waker clones: spawn c-scripts, tick, then wake / wdrop in every phase
+fn fam_waker(rng: &mut Rng) -> Prog {
+    let mut p = Prog::new(*rng.pick(&[1u32, 2, 3, 61, 61]));
+    p.spawn(&c_script(rng));
+    if rng.chance(1, 3) {
+        let s = if rng.chance(1, 2) { c_script(rng) } else { gen_script(rng) };
+        p.spawn(&s);
+    }
+    if rng.chance(1, 4) {
+        match rng.below(4) {
+            0 => p.hpoll(0, 0),
+            1 => p.hend("hdetach", 0),
+            2 => p.hend("hdrop", 0),
+            _ => p.hend("hcancel", 0),
+        }
+    }
+    p.tick();
+    for _ in 0..rng.below(3) {
+        p.tick();
+    }
+    let id = p.with_wakers().first().copied().unwrap_or(0);
+    match rng.below(7) {
+        0 => {
+            // wake / tick until (plausibly) complete, wake after completion, then drop the clones
+            for _ in 0..rng.range(1, 5) {
+                p.wake(id);
+                if rng.chance(1, 5) {
+                    p.wake(id);
                 }
-                4..=8 => "tick".to_string(),
-                9..=11 if ntasks > 0 => format!("hpoll {id} {}", rng.below(3)),
-                12 if ntasks > 0 => format!("hdrop {id}"),
-                13 if ntasks > 0 => format!("hdetach {id}"),
-                14 if ntasks > 0 => format!("hcancel {id}"),
-                15..=16 if ntasks > 0 => format!("wake {id}"),
-                17 if ntasks > 0 => format!("wdrop {id}"),
-                18 if rng.chance(1, 4) => "xdrop".to_string(),
-                _ if ntasks > 0 => format!("stat {id}"),
-                _ => "tick".to_string(),
-            };
-            lines.push(l);
+                p.tick();
+            }
+            p.wake(id);
+            if rng.chance(1, 2) {
+                p.tick();
+            }
+            p.wdrop(id);
+            p.wake(id);
         }
-        for id in 0..ntasks {
-            lines.push(format!("stat {id}"));
+        1 => {
+            // the kept clone becomes the last holder: handle gone, task over, then wdrop
+            let op = *rng.pick(&["hdetach", "hdrop", "hcancel", "hdetach"]);
+            p.hend(op, id);
+            for _ in 0..rng.range(1, 4) {
+                p.wake(id);
+                p.tick();
+            }
+            for _ in 0..p.tasks[id].wakers + rng.below(2) as u32 {
+                p.wdrop(id);
+            }
         }
-        lines.push("woken".into());
-        cases.push(Case { name: format!("g{i}"), lines });
+        2 => {
+            // executor dropped while clones are kept: wake / wdrop / handle afterwards
+            if rng.chance(1, 2) {
+                p.hpoll(id, 0);
+            }
+            p.xdrop();
+            for _ in 0..rng.range(1, 4) {
+                match rng.below(4) {
+                    0 | 1 => p.wake(id),
+                    2 => p.wdrop(id),
+                    _ => {
+                        let w = p.pick_waker(id, rng);
+                        p.hpoll(id, w)
+                    }
+                }
+            }
+            p.wdrop(id);
+        }
+        3 => {
+            // drop every clone first, the task can never be woken again
+            for _ in 0..p.tasks[id].wakers.max(1) {
+                p.wdrop(id);
+            }
+            p.wake(id);
+            p.tick();
+            if rng.chance(1, 2) {
+                p.hend(*rng.pick(&["hdrop", "hcancel", "hdetach"]), id);
+                p.tick();
+            }
+        }
+        4 => {
+            // wake, then cancel before the tick that would have polled it
+            p.wake(id);
+            p.hend(*rng.pick(&["hdrop", "hcancel", "hdrop"]), id);
+            if rng.chance(2, 3) {
+                p.tick();
+            }
+            p.wake(id);
+            p.wdrop(id);
+        }
+        _ => {}
+    }
+    for _ in 0..rng.below(7) {
+        step(&mut p, rng, &PROF_WAKER, c_script);
+    }
+    p
+}
+
+/// join handles: park with a waker before the completing tick, then take / drop / detach / cancel
+fn fam_join(rng: &mut Rng) -> Prog {
+    let mut p = Prog::new(*rng.pick(&[1u32, 2, 3, 61, 61, 61]));
+    let k = rng.range(1, 3) as usize;
+    for _ in 0..k {
+        p.spawn(&fin_script(rng));
+    }
+    let id = rng.below(k as u64) as usize;
+    // some ticks that (plausibly) do not complete the target yet
+    let need = p.tasks[id].script.len() as u64;
+    for _ in 0..rng.below(need) {
+        p.tick();
+    }
+    match rng.below(6) {
+        0 => p.hpoll(id, 0),
+        1 => {
+            p.hpoll(id, 0);
+            p.hpoll(id, 1);
+        }
+        2 => {
+            p.hpoll(id, 0);
+            p.hpoll(id, 0);
+        }
+        3 => {
+            // several handles parked on the same waker / on different wakers
+            let same = rng.chance(1, 2);
+            for j in 0..k {
+                p.hpoll(j, if same { 0 } else { j as u64 });
+            }
+        }
+        4 => {
+            p.hpoll(id, 1);
+            p.tick();
+            p.hpoll(id, 2);
+        }
+        _ => {}
+    }
+    // tick until (plausibly) complete; sometimes one short, sometimes a few more
+    let mut guard = 0;
+    while p.tasks[id].g == Guess::Running && guard < 8 {
+        if p.tasks[id].wakers > 0 && !p.tasks[id].runnable {
+            p.wake(id);
+        }
+        p.tick();
+        guard += 1;
+    }
+    match rng.below(10) {
+        0 => {}
+        1 | 2 | 3 => {
+            let w = p.pick_waker(id, rng);
+            p.hpoll(id, w);
+            if rng.chance(1, 3) {
+                p.hpoll(id, w);
+            }
+        }
+        4 => {
+            p.hend("hdrop", id);
+            p.hpoll(id, 0);
+        }
+        5 => p.hend("hdetach", id),
+        6 => p.hend("hcancel", id),
+        7 => {
+            p.xdrop();
+            let w = p.pick_waker(id, rng);
+            p.hpoll(id, w);
+        }
+        8 => {
+            p.lines.push("woken".into());
+            p.tick();
+        }
+        _ => {
+            for j in 0..k {
+                let w = p.pick_waker(j, rng);
+                p.hpoll(j, w);
+            }
+        }
+    }
+    for _ in 0..rng.below(5) {
+        step(&mut p, rng, &PROF_JOIN, fin_script);
+    }
+    p
+}
+
+/// hdrop / hdetach / hcancel / xdrop in every phase of a task, followed by handle and waker operations
+fn fam_phase(rng: &mut Rng) -> Prog {
+    let mut p = Prog::new(*rng.pick(&[1u32, 2, 3, 61, 61]));
+    let phase = rng.below(4);
+    let op = *rng.pick(&["hdrop", "hdetach", "hcancel", "xdrop"]);
+    if rng.chance(1, 3) {
+        p.spawn(&gen_script(rng));
+    }
+    let id = p.tasks.len();
+    match phase {
+        0 => {
+            // before the first tick
+            let s = if rng.chance(1, 2) { gen_script(rng) } else { fin_script(rng) };
+            p.spawn(&s);
+        }
+        1 => {
+            // between ticks while pending
+            let mut s = String::from(*rng.pick(&["s", "c", "p", "ss", "sc", "cs", "cc"]));
+            match rng.below(3) {
+                0 => {}
+                1 => s.push('x'),
+                _ => s.push('r'),
+            }
+            p.spawn(&s);
+            p.tick();
+            if rng.chance(1, 3) {
+                p.tick();
+            }
+        }
+        2 => {
+            // after completion, result not taken
+            p.spawn(*rng.pick(&["r", "x", "sr", "sx", "ssr", "r"]));
+            let mut guard = 0;
+            while p.tasks[id].g == Guess::Running && guard < 5 {
+                p.tick();
+                guard += 1;
+            }
+        }
+        _ => {
+            // after the executor was dropped
+            let s = if rng.chance(1, 2) { c_script(rng) } else { gen_script(rng) };
+            p.spawn(&s);
+            for _ in 0..rng.below(3) {
+                p.tick();
+            }
+            if rng.chance(1, 3) {
+                p.hpoll(id, 0);
+            }
+            p.xdrop();
+        }
+    }
+    if rng.chance(1, 3) && phase != 3 {
+        let w = p.pick_waker(id, rng);
+        p.hpoll(id, w);
+    }
+    if op == "xdrop" { p.xdrop() } else { p.hend(op, id) }
+    // follow-ups on the same task
+    for _ in 0..rng.range(1, 4) {
+        match rng.below(8) {
+            0 | 1 => p.tick(),
+            2 => {
+                let w = p.pick_waker(id, rng);
+                p.hpoll(id, w)
+            }
+            3 => p.wake(id),
+            4 => p.wdrop(id),
+            5 => p.hend(*rng.pick(&["hdrop", "hdetach", "hcancel"]), id),
+            6 => p.xdrop(),
+            _ => p.stat(id),
+        }
+    }
+    for _ in 0..rng.below(5) {
+        step(&mut p, rng, &PROF_PHASE, gen_script);
+    }
+    p
+}
+
+/// small max_interval, several self-waking tasks: tick order, budget, prefetching hot iterator
+fn fam_hot(rng: &mut Rng) -> Prog {
+    let mut p = Prog::new(*rng.pick(&[1u32, 2, 2, 3, 3]));
+    for _ in 0..rng.range(2, 4) {
+        p.spawn(&s_script(rng));
+    }
+    for _ in 0..rng.range(6, 18) {
+        step(&mut p, rng, &PROF_HOT, s_script);
+    }
+    p
+}
+
+fn fam_hostile(rng: &mut Rng) -> Prog {
+    let mut p = Prog::new(*rng.pick(&[0u32, 1, 2, 4, 5, 61, 100]));
+    for _ in 0..rng.range(3, 14) {
+        step(&mut p, rng, &PROF_HOSTILE, gen_script);
+    }
+    p
+}
+
+/// the original unstructured generator (kept as is)
+fn fam_random(rng: &mut Rng, name: String) -> Case {
+    let mut lines = vec![format!("new {}", rng.pick(&[1u32, 2, 3, 61]))];
+    let mut ntasks = 0usize;
+    let len = rng.range(3, 16);
+    for _ in 0..len {
+        let id = if ntasks > 0 { rng.below(ntasks as u64) as usize } else { 0 };
+        let op = rng.below(20);
+        let l = match op {
+            0..=3 => {
+                ntasks += 1;
+                format!("spawn {}", gen_script(rng))
+            }
+            4..=8 => "tick".to_string(),
+            9..=11 if ntasks > 0 => format!("hpoll {id} {}", rng.below(3)),
+            12 if ntasks > 0 => format!("hdrop {id}"),
+            13 if ntasks > 0 => format!("hdetach {id}"),
+            14 if ntasks > 0 => format!("hcancel {id}"),
+            15..=16 if ntasks > 0 => format!("wake {id}"),
+            17 if ntasks > 0 => format!("wdrop {id}"),
+            18 if rng.chance(1, 4) => "xdrop".to_string(),
+            _ if ntasks > 0 => format!("stat {id}"),
+            _ => "tick".to_string(),
+        };
+        lines.push(l);
+    }
+    for id in 0..ntasks {
+        lines.push(format!("stat {id}"));
+    }
+    lines.push("woken".into());
+    Case { name, lines }
+}
+
+// ---- exhaustive enumeration -------------------------------------------------------------------
+
+/// Syntactic state of the enumeration (no semantics: only what the program text certainly implies).
+#[derive(Clone, Copy)]
+struct EnumSt {
+    /// number of spawns so far (at most 2)
+    nsp: usize,
+    /// number of `c` in the script of task 0
+    c0: u32,
+    /// no `xdrop` yet
+    alive: bool,
+    /// handle i not yet certainly consumed (by hdrop / hdetach / hcancel)
+    h: [bool; 2],
+    /// a tick happened after the spawn of task 0 while the executor was alive
+    tick0: bool,
+    /// number of `wdrop 0` so far
+    wd0: u32,
+    /// some `hpoll` occurred (then waker 1 is not just a renaming of waker 0)
+    wused: bool,
+}
+
+/// All programs of 1..=maxlen operations over the alphabet
+/// {spawn s (s in `scripts`), tick, hpoll 0 0, hpoll 0 1, hpoll 1 0, hdrop 0, hdrop 1, hdetach 0, hcancel 0, wake 0,
+/// wdrop 0, xdrop} that start with a spawn, spawn at most 2 tasks, and contain no operation that is *certainly*
+/// `invalid` by syntax alone: task id not yet spawned; handle already consumed by hdrop/hdetach/hcancel;
+/// spawn/tick/xdrop after xdrop; wake/wdrop of task 0 when its script has no `c`, or before the first tick after its
+/// spawn, or after as many `wdrop 0` as its script has `c`. `hpoll 0 1` is only used after some other hpoll
+/// (before, waker 1 is waker 0 renamed).
+fn enumerate(maxlen: usize, n: u32, scripts: &[&str], prefix: &str, out: &mut Vec<Case>) {
+    fn rec(left: usize, st: EnumSt, ops: &mut Vec<String>, n: u32, scripts: &[&str], prefix: &str, out: &mut Vec<Case>) {
+        if st.nsp > 0 {
+            let mut lines = Vec::with_capacity(ops.len() + 4);
+            lines.push(format!("new {n}"));
+            lines.extend(ops.iter().cloned());
+            for id in 0..st.nsp {
+                lines.push(format!("stat {id}"));
+            }
+            lines.push("woken".into());
+            out.push(Case { name: format!("{prefix}-{}", out.len()), lines });
+        }
+        if left == 0 {
+            return;
+        }
+        let go = |op: String, st2: EnumSt, ops: &mut Vec<String>, out: &mut Vec<Case>| {
+            ops.push(op);
+            rec(left - 1, st2, ops, n, scripts, prefix, out);
+            ops.pop();
+        };
+        if st.alive && st.nsp < 2 {
+            for s in scripts {
+                let mut s2 = st;
+                s2.nsp += 1;
+                if st.nsp == 0 {
+                    s2.c0 = s.chars().filter(|c| *c == 'c').count() as u32;
+                    s2.h[0] = true;
+                    s2.tick0 = false;
+                } else {
+                    s2.h[1] = true;
+                }
+                go(format!("spawn {s}"), s2, ops, out);
+            }
+        }
+        if st.nsp == 0 {
+            return;
+        }
+        if st.alive {
+            go("tick".into(), EnumSt { tick0: true, ..st }, ops, out);
+            go("xdrop".into(), EnumSt { alive: false, ..st }, ops, out);
+        }
+        if st.h[0] {
+            go("hpoll 0 0".into(), EnumSt { wused: true, ..st }, ops, out);
+            if st.wused {
+                go("hpoll 0 1".into(), st, ops, out);
+            }
+            for op in ["hdrop 0", "hdetach 0", "hcancel 0"] {
+                go(op.into(), EnumSt { h: [false, st.h[1]], ..st }, ops, out);
+            }
+        }
+        if st.nsp == 2 && st.h[1] {
+            go("hpoll 1 0".into(), EnumSt { wused: true, ..st }, ops, out);
+            go("hdrop 1".into(), EnumSt { h: [st.h[0], false], ..st }, ops, out);
+        }
+        if st.c0 > st.wd0 && st.tick0 {
+            go("wake 0".into(), st, ops, out);
+            go("wdrop 0".into(), EnumSt { wd0: st.wd0 + 1, ..st }, ops, out);
+        }
+    }
+    let st = EnumSt { nsp: 0, c0: 0, alive: true, h: [false, false], tick0: false, wd0: 0, wused: false };
+    rec(maxlen, st, &mut vec![], n, scripts, prefix, out);
+}
+
+const SCRIPTS_A: [&str; 4] = ["r", "sr", "cx", "p"];
+const SCRIPTS_B: [&str; 4] = ["x", "ssr", "ccr", "cs"];
+
+fn generate(tier: &str, rng: &mut Rng) -> Vec<Case> {
+    let thorough = tier == "thorough";
+    let mut cases = vec![];
+    // 1. exhaustive slices
+    if thorough {
+        enumerate(7, 1, &SCRIPTS_A, "xa", &mut cases);
+        enumerate(7, 61, &SCRIPTS_A, "xb", &mut cases);
+        enumerate(6, 1, &SCRIPTS_B, "xc", &mut cases);
+        enumerate(6, 2, &SCRIPTS_B, "xd", &mut cases);
+        enumerate(6, 3, &SCRIPTS_B, "xe", &mut cases);
+    } else {
+        enumerate(4, 1, &SCRIPTS_A, "xa", &mut cases);
+        enumerate(3, 61, &SCRIPTS_A, "xb", &mut cases);
+    }
+    // 2. generated programs: 25 % unstructured, 10 % hostile, the rest structure-aware families
+    let n = if thorough { 40_000 } else { 2_500 };
+    for i in 0..n {
+        let (fam, prog) = match rng.below(100) {
+            0..=24 => {
+                cases.push(fam_random(rng, format!("rnd{i}")));
+                continue;
+            }
+            25..=34 => ("hostile", fam_hostile(rng)),
+            35..=51 => ("waker", fam_waker(rng)),
+            52..=68 => ("join", fam_join(rng)),
+            69..=85 => ("phase", fam_phase(rng)),
+            _ => ("hot", fam_hot(rng)),
+        };
+        cases.push(prog.finish(format!("{fam}{i}")));
     }
     cases
 }
@@ -460,6 +1381,6 @@ fn main() {
     run_harness(
         generate,
         run_case,
-        "cases: one executor (max_interval in {1,2,3,61}) and a random program of spawn(script)/tick/handle poll,drop,detach,cancel/waker wake,drop/executor drop, then stat of every task; distinct by text; non-trivial = at least 4 operations",
+        "cases: (a) exhaustive: every program of 1..L operations over {spawn s, tick, hpoll 0 0, hpoll 0 1, hpoll 1 0, hdrop 0, hdrop 1, hdetach 0, hcancel 0, wake 0, wdrop 0, xdrop} that starts with a spawn, spawns at most 2 tasks and has no operation that is invalid by syntax alone (unknown id, handle already consumed, dead executor, no waker clone possible); quick: scripts {r,sr,cx,p} with L=4 for max_interval 1 and L=3 for 61; thorough: scripts {r,sr,cx,p} with L=7 for max_interval 1 and 61, scripts {x,ssr,ccr,cs} with L=6 for max_interval 1, 2, 3. (b) generated (quick 2500, thorough 40000), one executor with max_interval in {1,2,3,61} each: 25% unstructured random programs of spawn(script)/tick/handle poll,drop,detach,cancel/waker wake,drop/executor drop; 10% hostile (ids out of range, consumed handles, wake/wdrop without clone, operations on a dropped executor, max_interval in {0,1,2,4,5,61,100}); 17% waker (scripts s*c..: tick, then wake/wdrop while pending, after completion, as last holder, after hdrop/hcancel, after xdrop); 17% join (scripts s*(r|x): handle parked with one/two/the same waker before the completing tick, then poll/drop/detach/cancel/xdrop and polls of consumed handles); 17% phase (hdrop/hdetach/hcancel/xdrop before the first tick, while pending, after completion with the result untaken, after xdrop, then handle and waker operations); 14% hot (max_interval 1..3, 2-6 mostly self-waking tasks, many ticks). The generator keeps a syntactic shadow (scripts, ticks, consumed handles) only to bias choices; it never judges outputs. Every case ends with stat of every task and the wake log; after the last line the harness keeps ticking until the executor runs dry (starvation monitor) and then drops everything (drop-count monitors). distinct by text; non-trivial = some spawn succeeded and at least 4 lines",
     );
 }
